@@ -89,7 +89,9 @@ fn run(rng: &mut Rng, _idx: u64, tier: Tier) -> CaseOut {
     let unit = sys.graph.unit_colored_vertices();
     let ev = |t: &str| -> Option<biodivine_lib_param_bn::symbolic_async_graph::GraphColoredVertices> {
         match eval_raw(&sys, t, &ctx) {
-            Call::Ok(s) => Some(s.intersect(unit)),
+            // raw sets: every result is inside the unit set on a correct library, so no cut is needed here, and a result
+            // that leaves the unit set makes the two sides of an identity differ
+            Call::Ok(s) => Some(s),
             _ => None,
         }
     };
